@@ -150,6 +150,8 @@ static void set_header_pattern(FileStatistics & fs, int hp, blfasm::Header & h) 
         return v;
     };
     if (hp == 0) return;
+    /* 5..7: the same fields supplied later in the session (the header is written at close()): 5 = pattern 4 after open(),
+     * 6 = pattern 3 after the last write, 7 = pattern 2 before open() replaced by pattern 4 after the last write */
     fs.apiNumber = h.apiNumber = (uint32_t)val(0, 4);
     fs.applicationId = h.applicationId = (uint8_t)val(1, 1);
     fs.compressionLevel = h.compressionLevel = (uint8_t)val(2, 1);
@@ -199,10 +201,14 @@ static SessionResult session(const std::vector<const Elem *> & seq, const std::v
         f.compressionLevel = (int)level;
         f.writeRestorePoints = rp != 0;
         f.setDefaultLogContainerSize((uint32_t)cont);
-        set_header_pattern(f.fileStatistics, hp, hdr);
+        if (hp <= 4) set_header_pattern(f.fileStatistics, hp, hdr);
+        if (hp == 7) set_header_pattern(f.fileStatistics, 2, hdr);
         f.open(path.c_str(), std::ios_base::out);
         if (!f.is_open()) { report("C13", "open-out", "open() for writing failed", label); vs_end(nullptr); sr.ok = false; return sr; }
+        if (hp == 5) set_header_pattern(f.fileStatistics, 4, hdr);
         for (size_t i = 0; i < seq.size(); i++) f.write(make(*seq[i], cont));
+        if (hp == 6) set_header_pattern(f.fileStatistics, 3, hdr);
+        if (hp == 7) set_header_pattern(f.fileStatistics, 4, hdr);
         f.close();
         cnt_after_write = f.currentObjectCount;
         usz_after_write = f.currentUncompressedFileSize;
